@@ -255,6 +255,18 @@ def rule_wif(ctx, repo):
     ok = len(calls) == 1 and common.value_match(repo, fs, calls[0].args[0], "%s + (b'\\x01' if %s else b'')" % (sec, comp)) == 'same' \
         and common.value_match(repo, fs, calls[0].args[1], "bitcoin.params.BASE58_PREFIXES['SECRET_KEY']") == 'same'
     r.check(ok, 'writer', fs.site, "secret + (01 if compressed), version of the selected chain", 'WIF payload is built by %s' % [norm(c) for c in calls])
+    # the object built from (secret, compressed) is initialised the way a parsed one is: through the reader (which takes
+    # the flag from the payload just written), or through CKey.__init__ with the same secret and the same flag
+    inits = [c for c in common.iter_calls(fs.node) if isinstance(c.func, ast.Attribute) and c.func.attr == '__init__']
+    if len(inits) == 1 and norm(inits[0].func) == 'self.__init__':
+        r.ok('writer:initialised', common.site_of(fs, inits[0]), 'initialised by the reader from the payload it carries')
+    elif len(inits) == 1 and norm(inits[0].func) == 'CKey.__init__':
+        a_ = [norm(x) for x in inits[0].args] + ['%s=%s' % (k.arg, norm(k.value)) for k in inits[0].keywords]
+        r.check(a_ in (['self', sec, comp], ['self', sec, 'compressed=%s' % comp]), 'writer:initialised', common.site_of(fs, inits[0]), 'CKey.__init__(self, secret, compressed)',
+                'from_secret_bytes initialises the key with `%s`: the compression flag that chose the payload marker does not reach the key (CKey defaults to compressed), so the object '
+                'and its own WIF text disagree' % norm(inits[0]))
+    else:
+        r.undecided('writer:initialised', fs.site, 'initialisation of the object built by from_secret_bytes: %s' % [norm(c) for c in inits])
     init = ci.methods['__init__']
     kc = [c for c in common.iter_calls(init.node) if norm(c.func) == 'CKey.__init__']
     if len(kc) != 1 or len(kc[0].args) != 3:
